@@ -1526,10 +1526,13 @@ def _cut_for(ex, node, st, it):
                     _check_steps(ex, st3, spec, fname, ordinal)
                     _check_invs(ex, st3, spec, "preserve", fname, ordinal, {"_i": SV("int", i + 1)})
                 elif out[0] == "break":
+                    _check_steps(ex, st3, spec, fname, ordinal)  # an iteration that ends in break is an iteration
                     st3.ghost = dict(st3.ghost)
                     st3.ghost["loops"] = st3.ghost.get("loops", ()) + ((ordinal, False),)
                     yield st3, ("normal", None)
                 else:
+                    if out[0] == "return":
+                        _check_steps(ex, st3, spec, fname, ordinal)  # ... and so is one that ends in return
                     yield st3, out
 
 
